@@ -1,12 +1,122 @@
 package main
 
 import (
+	"flag"
 	"fmt"
-	"golang.org/x/tools/go/packages"
+	"os"
+	"runtime"
+	"sort"
+	"strings"
+	"time"
 )
 
+var repoDir = "/repo"
+var verifDir = "/verif"
+
 func main() {
-	cfg := &packages.Config{Mode: packages.LoadAllSyntax &^ packages.NeedDeps | packages.NeedImports | packages.NeedDeps, Dir: "/repo", BuildFlags: []string{"-tags=verif"}}
-	pkgs, err := packages.Load(cfg, "./native")
-	fmt.Println(len(pkgs), err)
+	if len(os.Args) < 2 {
+		fmt.Fprintln(os.Stderr, "usage: govc check|units|unit|lock|replay ...")
+		os.Exit(2)
+	}
+	if d := os.Getenv("GOVC_REPO"); d != "" {
+		repoDir = d
+	}
+	switch os.Args[1] {
+	case "unit":
+		cmdUnit(os.Args[2:])
+	case "check":
+		os.Exit(cmdCheck(os.Args[2:]))
+	case "lock":
+		os.Exit(cmdLock(os.Args[2:]))
+	case "units":
+		cmdUnits(os.Args[2:])
+	case "replay":
+		os.Exit(cmdReplay(os.Args[2:]))
+	case "selftest":
+		os.Exit(cmdSelftest(os.Args[2:]))
+	default:
+		fmt.Fprintln(os.Stderr, "unknown command", os.Args[1])
+		os.Exit(2)
+	}
+}
+
+// cmdUnit: developer command — run the units whose name contains the given substring and print every obligation.
+func cmdUnit(args []string) {
+	fs := flag.NewFlagSet("unit", flag.ExitOnError)
+	to := fs.Int("t", 10, "timeout seconds")
+	verbose := fs.Bool("v", false, "print goals")
+	keep := fs.String("work", "/tmp/govc-work", "work dir")
+	all := fs.Bool("all", false, "ask all solvers")
+	pkgsFlag := fs.String("pkgs", "", "comma-separated package patterns (default: all targets)")
+	_ = fs.Parse(args)
+	var only []string
+	if *pkgsFlag != "" {
+		only = strings.Split(*pkgsFlag, ",")
+	}
+	t0 := time.Now()
+	w, err := loadWorld(repoDir, only)
+	if err != nil {
+		fmt.Fprintln(os.Stderr, err)
+		os.Exit(2)
+	}
+	fmt.Printf("loaded in %v\n", time.Since(t0))
+	pats := fs.Args()
+	var paths []string
+	for p := range w.Pkgs {
+		paths = append(paths, p)
+	}
+	sort.Strings(paths)
+	for _, p := range paths {
+		pk := w.Pkgs[p]
+		for _, c := range pk.Contracts {
+			full := pkgShort(pk.Path) + "." + c.Name
+			match := len(pats) == 0
+			for _, pat := range pats {
+				if strings.Contains(full, pat) {
+					match = true
+				}
+			}
+			if !match {
+				continue
+			}
+			r := runUnit(w, pk, c)
+			solveUnit(r, solveOpts{timeout: time.Duration(*to) * time.Second, all: *all, workdir: *keep, par: runtime.NumCPU()})
+			fmt.Println(r.summary())
+			for _, o := range r.Obligs {
+				mark := "ok  "
+				if o.Canary {
+					if o.Status == "unsat" {
+						mark = "VACUOUS"
+					} else {
+						continue
+					}
+				} else if o.Status != "unsat" {
+					mark = "OPEN"
+				}
+				fmt.Printf("  %-5s %-8s %-7s %5dms %s  [%s] %s\n", mark, o.Status, o.Solver, o.Ms, o.Name, o.Pos, o.Desc)
+				if *verbose && o.Status != "unsat" {
+					fmt.Printf("        query: %s\n", o.Query)
+				}
+			}
+			for _, a := range r.Abstracted {
+				fmt.Println("  abstracted:", a)
+			}
+			for _, a := range r.Notes {
+				fmt.Println("  note:", a)
+			}
+		}
+	}
+}
+
+func cmdUnits(args []string) {
+	w, err := loadWorld(repoDir, nil)
+	if err != nil {
+		fmt.Fprintln(os.Stderr, err)
+		os.Exit(2)
+	}
+	for _, pk := range w.Pkgs {
+		for _, c := range pk.Contracts {
+			fmt.Printf("%s.%s props=%v mode=%s\n", pkgShort(pk.Path), c.Name, c.Props, c.Mode)
+		}
+	}
 }
